@@ -55,6 +55,7 @@ struct Thread {
   VC vc, acq_pending, rel_fence;
   int quiet;
   uint64_t steps;
+  uint64_t plain_run; // plain accesses since the last scheduling point (loops without atomics must end, too)
   uint32_t spin;
   int prio;
   const void* blocked_on;
@@ -66,9 +67,19 @@ struct Thread {
   bool in_op, op_lockfree;
   int op_kind;
   uint64_t op_steps;
+  int sb_n; // TSO mode: FIFO store buffer, sb[0] is the oldest entry
+  struct SBEntry {
+    uintptr_t addr;
+    uint64_t val;
+    uint64_t deadline;
+    uint32_t wclk;
+    uint8_t size, has_own;
+    VC own;
+  } sb[32];
   int sp;
   void* stack[MAXSTACK];
 };
+constexpr int SBMAX = 32;
 
 struct Violation {
   bool set;
@@ -248,6 +259,8 @@ static void* heap_alloc(size_t size, size_t align) {
 }
 
 static void race_access(Thread* t, uintptr_t addr, size_t size, int kind, void* pc, bool is_free = false);
+static void sb_drain_all(Thread* owner);
+static void sb_tick();
 static void loc_reset_range(uintptr_t addr, size_t size);
 
 static void heap_free(void* p) {
@@ -267,6 +280,7 @@ static void heap_free(void* p) {
   size_t rounded = (size + UNIT - 1) & ~(UNIT - 1);
   Thread* t = self;
   if (t && t->id > 0 && !t->quiet && G.running) {
+    sb_drain_all(t);
     // a free is a write to the whole block
     race_access(t, (uintptr_t)p, rounded, K_PW, __builtin_return_address(0), true);
     loc_reset_range((uintptr_t)p, rounded);
@@ -461,6 +475,11 @@ static void hang_check(Thread* t) {
     G.rr.drain_mode = true;
     G.stale_p = 0;
     G.cfg.weak = false;
+    if (G.cfg.tso) {
+      for (int i = 1; i < G.nthr; ++i)
+        sb_drain_all(&G.thr[i]);
+      G.cfg.tso = false;
+    }
   }
   if (G.steps > G.cfg.budget2 && !G.hang) {
     G.hang = true;
@@ -472,9 +491,14 @@ static void hang_check(Thread* t) {
 }
 
 // ev: 0 = neutral, 1 = progress (successful store/RMW), 2 = spin-ish (load / failed CAS / yield)
+static void sb_tick();
+static void sb_drain_all(Thread* owner);
 static void sched_point(Thread* t, int ev) {
   G.steps++;
   G.stamp++;
+  t->plain_run = 0;
+  if (G.cfg.tso)
+    sb_tick();
   t->steps++;
   if (ev == 1)
     t->spin = 0;
@@ -527,6 +551,7 @@ static void sched_point(Thread* t, int ev) {
 }
 
 static void block_on(Thread* t, const void* obj) {
+  sb_drain_all(t);
   t->state = T_BLOCKED;
   t->blocked_on = obj;
   if (G.solo == t->id) {
@@ -544,6 +569,7 @@ static void block_on(Thread* t, const void* obj) {
 
 static void thread_done(void* p) {
   Thread* t = (Thread*)p;
+  sb_drain_all(t);
   t->state = T_DONE;
   t->in_op = false;
   G.live--;
@@ -718,6 +744,12 @@ RunResult run(const RunCfg& cfg, const ThreadSpec* specs, int n) {
   G.st.plains += G.rr.plains;
   G.st.fences += G.rr.fences;
   if (G.rr.solo_episodes) {
+    int k = G.rr.solo_kind & 127;
+    G.st.solo_count_by_kind[k]++;
+    if (G.rr.solo_others_midop)
+      G.st.solo_midop_by_kind[k]++;
+    if (G.rr.solo_max_steps > G.st.solo_max_by_kind[k])
+      G.st.solo_max_by_kind[k] = G.rr.solo_max_steps;
     G.st.solo_episodes += G.rr.solo_episodes;
     if (G.rr.solo_max_steps > G.st.solo_max_steps)
       G.st.solo_max_steps = G.rr.solo_max_steps;
@@ -1154,13 +1186,14 @@ static int model_read(Thread* t, Loc& l, int mo, bool force_newest, void* pc) {
   return pick_i;
 }
 
-static void model_write(Thread* t, Loc& l, uint64_t val, int mo, bool rmw) {
+// `drained`: the store was executed earlier (TSO store buffer) - use the clocks captured at that time
+static void model_write_ex(Thread* t, Loc& l, uint64_t val, int mo, bool rmw, const Thread::SBEntry* drained) {
   Msg* prev = l.nmsg ? &msg_at(l, l.nmsg - 1) : nullptr;
   Msg nm;
   nm.val = val;
   nm.ts = l.next_ts++;
   nm.writer = (uint8_t)t->id;
-  nm.wclk = t->vc.c[t->id];
+  nm.wclk = drained ? drained->wclk : t->vc.c[t->id];
   nm.step = G.steps;
   nm.nheads = 0;
   // release sequence inheritance (C++17 rule)
@@ -1171,7 +1204,9 @@ static void model_write(Thread* t, Loc& l, uint64_t val, int mo, bool rmw) {
     }
   }
   const VC* own = nullptr;
-  if (is_rel(mo))
+  if (drained)
+    own = drained->has_own ? &drained->own : nullptr;
+  else if (is_rel(mo))
     own = &t->vc;
   else if (t->rel_fence.c[t->id] != 0)
     own = &t->rel_fence;
@@ -1197,8 +1232,34 @@ static void model_write(Thread* t, Loc& l, uint64_t val, int mo, bool rmw) {
   msg_at(l, l.nmsg) = nm;
   l.nmsg++;
   observe(l, t, nm.ts);
-  t->vc.c[t->id]++;
+  if (!drained)
+    t->vc.c[t->id]++;
   real_store(l.addr, l.size, val);
+}
+static inline void model_write(Thread* t, Loc& l, uint64_t val, int mo, bool rmw) { model_write_ex(t, l, val, mo, rmw, nullptr); }
+
+// ---- TSO mode: store buffers
+static Loc* loc_get(uintptr_t addr, int size);
+static void sb_drain_one(Thread* owner) {
+  Thread::SBEntry e = owner->sb[0];
+  memmove(&owner->sb[0], &owner->sb[1], sizeof(Thread::SBEntry) * (size_t)(owner->sb_n - 1));
+  owner->sb_n--;
+  Loc* l = loc_get(e.addr, e.size);
+  if (l)
+    model_write_ex(owner, *l, e.val, 0, false, &e);
+  else
+    real_store(e.addr, e.size, e.val);
+}
+static void sb_drain_all(Thread* owner) {
+  while (owner->sb_n)
+    sb_drain_one(owner);
+}
+static void sb_tick() {
+  for (int i = 1; i < G.nthr; ++i) {
+    Thread& u = G.thr[i];
+    while (u.sb_n && u.sb[0].deadline <= G.steps)
+      sb_drain_one(&u);
+  }
 }
 
 enum AOp { A_LOAD, A_STORE, A_XCHG, A_ADD, A_SUB, A_AND, A_OR, A_XOR, A_NAND, A_CAS_S, A_CAS_W };
@@ -1260,6 +1321,51 @@ static uint64_t atomic_op(AOp op, uintptr_t addr, int size, uint64_t operand, ui
   }
   Loc& l = *lp;
   bool sc = mo == 5;
+  if (G.cfg.tso) {
+    // x86-TSO: plain stores (everything but seq_cst) go to the FIFO store buffer, loads are satisfied from the own
+    // buffer or from memory, locked instructions (RMW, seq_cst store) and mfence drain the buffer first.
+    if (op == A_STORE && !sc) {
+      race_access(t, addr, (size_t)size, K_AW, pc);
+      if (t->sb_n == SBMAX)
+        sb_drain_one(t);
+      Thread::SBEntry& e = t->sb[t->sb_n++];
+      e.addr = addr;
+      e.size = (uint8_t)size;
+      e.val = trunc(operand, size);
+      e.deadline = G.steps + 1 + grand() % (G.cfg.window ? G.cfg.window : 1);
+      e.wclk = t->vc.c[t->id];
+      e.has_own = 0;
+      if (is_rel(mo)) {
+        e.has_own = 1;
+        e.own = t->vc;
+      } else if (t->rel_fence.c[t->id] != 0) {
+        e.has_own = 1;
+        e.own = t->rel_fence;
+      }
+      t->vc.c[t->id]++;
+      t->spin = 0;
+      G.rr.stale_reads++; // counts buffered stores in this mode
+      site_note(pc);
+      return 0;
+    }
+    if (op == A_LOAD) {
+      for (int i = t->sb_n - 1; i >= 0; --i) {
+        Thread::SBEntry& e = t->sb[i];
+        if (e.addr == addr && e.size == size) {
+          t->spin++;
+          return e.val; // store forwarding
+        }
+        if (e.addr < addr + (uintptr_t)size && addr < e.addr + e.size) {
+          sb_drain_all(t); // partially overlapping access: not modelled, make it visible first
+          break;
+        }
+      }
+      int i = model_read(t, l, mo, true, pc); // a seq_cst load is a plain load on x86
+      t->spin++;
+      return msg_at(l, i).val;
+    }
+    sb_drain_all(t); // RMW, CAS, seq_cst store
+  }
   if (sc)
     fence_sc(t);
   uint64_t result = 0;
@@ -1364,7 +1470,11 @@ static void fence_op(int mo) {
     t->rel_fence = t->vc;
     t->vc.c[t->id]++;
     break;
-  default: fence_sc(t); break;
+  default:
+    if (G.cfg.tso)
+      sb_drain_all(t);
+    fence_sc(t);
+    break;
   }
   __atomic_thread_fence(__ATOMIC_SEQ_CST);
 }
@@ -1377,6 +1487,11 @@ static inline void plain_access(const void* p, size_t size, bool is_write, void*
   if (!managed(t))
     return;
   G.rr.plains++;
+  if (++t->plain_run > 50000000ull) {
+    report("hang", "thread %d executed 50 million plain accesses without any atomic operation (op kind %d): endless loop", t->id,
+           t->in_op ? t->op_kind : -1);
+    fatal_json("hang", G.viol.msg);
+  }
   if (G.plain_q && !G.solo && chance(G.plain_q))
     sched_point(t, 0);
   race_access(t, (uintptr_t)p, size, is_write ? K_PW : K_PR, pc);
@@ -1404,6 +1519,7 @@ static MutexRec* mutex_get(const void* addr) {
 }
 
 static void mutex_lock(Thread* t, const void* addr) {
+  sb_drain_all(t);
   sched_point(t, 0);
   MutexRec* m = mutex_get(addr);
   while (m->owner != 0) {
@@ -1423,6 +1539,7 @@ static bool mutex_trylock(Thread* t, const void* addr) {
   return true;
 }
 static void mutex_unlock(Thread* t, const void* addr) {
+  sb_drain_all(t);
   MutexRec* m = mutex_get(addr);
   m->owner = 0;
   m->vc = t->vc;
